@@ -353,7 +353,7 @@ class UnitRunner:
             outcomes = [o for _, o in res]
             if self.paths_after_requires == 0:
                 status, err = "vacuous", "no path satisfies the requires clauses"
-            missing = [m for m in [c["fn"], *c["must_inline"]] if m not in inlined_all and not m.startswith("spec:")]
+            missing = [m for m in [c["fn"], *c["must_inline"]] if m not in inlined_all and not m.startswith(("spec:", "lemma:"))]
             refuted = any(o["status"] == "refuted" for o in self.obligations.values())
             if status == "ok" and missing and not refuted:
                 status, err = "vacuous", f"function(s) under contract never executed: {missing}"
@@ -455,4 +455,15 @@ def run_audit(prop, a, overrides):
 
 
 def run_lemma(prop, lm, overrides):
-    raise NotImplementedError
+    """A lemma is a statement over contracts/spec symbols (no code): premises |- conclusion, for symbolic vars."""
+    out = []
+    for idx, inst in enumerate(lm["instances"]):
+        c = dict(fn="lemma:" + lm["name"], name=lm["name"], call="None", vars=lm["vars"], requires=lm["premises"],
+                 ensures=lm["conclusion"], raises=[], ensures_raise=[], instances=[inst], uses=[], loops={}, modular=None,
+                 note=lm["note"], must_inline=[], replay=None, on_effect={}, covers=[], assumes=[], tier=lm["tier"],
+                 max_paths=None, stubs={}, refs={}, bounded=None)
+        r = UnitRunner(prop, c, inst, idx, overrides, [], False).run()
+        r["counts_as_function"] = False
+        r["is_lemma"] = True
+        out.append(r)
+    return out
